@@ -52,7 +52,7 @@ package pdf
 //@   requires len(buf) <= 8
 //@   loop 1: invariant 0 <= res && res < pow256(\done)
 //@   loop 1: invariant res == beVal(buf, \done)
-//@   ensures err == nil ==> res == beVal(buf, len(buf))
+//@   ensures err == nil ==> res == beVal(buf, len(buf)) && res >= 0
 //@   ensures err != nil ==> beVal(buf, len(buf)) > 9223372036854775807
 //@ spec func pow256(k int) int = k <= 0 ? 1 : k == 1 ? 256 : k == 2 ? 65536 : k == 3 ? 16777216 : k == 4 ? 4294967296 : k == 5 ? 1099511627776 : k == 6 ? 281474976710656 : k == 7 ? 72057594037927936 : 18446744073709551616
 //@ spec rec func beVal(b seq, k int) int = k <= 0 ? 0 : beVal(b, k-1) * 256 + b[k-1]
@@ -407,3 +407,45 @@ package pdf
 //@   ensures old(s.enc) == nil ==> (err != nil && !malformed(err) ==> s.src.fails)
 //@   ensures err != io.EOF && err != io.ErrUnexpectedEOF
 //@   ensures err == nil ==> ref % 4294967296 < 16777216
+
+// ---- cross-reference streams (7.5.8) ----
+//@ func checkXRefStreamDict (dict, rawLen) (w, ss, err)
+//@   tags C04 C05
+//@   assigns nothing
+//@   ensures err != nil ==> malformed(err)
+//@   ensures err == nil ==> len(w) == 3 && w[0] + w[1] + w[2] > 0
+//@   ensures err == nil ==> forall i in 0..3 :: 0 <= w[i] && w[i] <= 8
+//@   ensures err == nil ==> forall k in 0..len(ss) :: ss[k] != nil && ss[k].Start + ss[k].Size <= 16777216
+//@   loop 1: invariant len(w) == \done && \done <= 3 && (refof(w) == 0 || refof(w) > \top0)
+//@   loop 1: invariant forall j in offof(w)..offof(w)+len(w) :: 0 <= raw(w)[j] && raw(w)[j] <= 8
+//@   loop 2: invariant 0 <= i && i <= len(ind) && i % 2 == 0 && len(ind) % 2 == 0 && (refof(ss) == 0 || refof(ss) > \top0)
+//@   loop 2: invariant forall j in offof(ss)..offof(ss)+len(ss) :: raw(ss)[j] != nil && raw(ss)[j] > \top0 && raw(ss)[j].Start + raw(ss)[j].Size <= 16777216 && raw(ss)[j].Size <= 16777216
+//@   loop 2: decreases len(ind) - i
+//@   loop 3: invariant 0 <= total && total <= \done * 16777216
+//@   loop 3: invariant forall j in offof(ss)..offof(ss)+len(ss) :: raw(ss)[j] != nil && raw(ss)[j].Size <= 16777216
+
+//@ func decodeXRefStream (xref, r, w, ss) (err)
+//@   tags C04 C05
+//@   requires xref != nil && r != nil && len(w) == 3 && forall i in 0..3 :: 0 <= w[i] && w[i] <= 8
+//@   requires forall k in 0..len(ss) :: ss[k] != nil && ss[k].Start + ss[k].Size <= 16777216
+//@   assigns mapof(xref), r.rdpos
+//@   ensures forall k int :: old(k in xref) && old(xref[k]) != nil ==> (k in xref) && xref[k] == old(xref[k])
+//@   loop 1: invariant wTotal == (\done >= 1 ? w[0] : 0) + (\done >= 2 ? w[1] : 0) + (\done >= 3 ? w[2] : 0)
+//@   loop 2: invariant forall k int :: old(k in xref) && old(xref[k]) != nil ==> (k in xref) && xref[k] == old(xref[k])
+//@   loop 3: invariant forall k int :: old(k in xref) && old(xref[k]) != nil ==> (k in xref) && xref[k] == old(xref[k])
+//@   loop 3: invariant sec.Start <= i && i <= sec.Start + sec.Size
+//@   loop 3: decreases sec.Start + sec.Size - i
+
+// ---- error handling policy while opening a file (C19): an error that is not a
+// malformed-file error (an I/O failure) always aborts, in every ErrorHandling mode ----
+//@ func NewReader$1 (err) (exit)
+//@   tags C19
+//@   requires opt != nil && r != nil
+//@   ensures err == nil ==> !exit
+//@   ensures err != nil && !malformed(err) ==> exit
+
+//@ func (*FileInfo).MakeReader$1 (err) (exit)
+//@   tags C19
+//@   requires opt != nil && r != nil
+//@   ensures err == nil ==> !exit
+//@   ensures err != nil && !malformed(err) ==> exit
